@@ -2,6 +2,7 @@ package lua
 
 import (
 	"sort"
+	"strings"
 )
 
 func OpenTable(L *LState) int {
@@ -58,19 +59,20 @@ func tableConcat(L *LState) int {
 		L.Push(emptyLString)
 		return 1
 	}
-	//TODO should flushing?
-	retbottom := L.GetTop()
+	// the pieces are collected in a buffer, not on the value stack: a list may be
+	// longer than the registry
+	var buf strings.Builder
 	for ; i <= j; i++ {
 		v := tbl.RawGetInt(i)
 		if !LVCanConvToString(v) {
 			L.RaiseError("invalid value (%s) at index %d in table for concat", v.Type().String(), i)
 		}
-		L.Push(v)
+		buf.WriteString(LVAsString(v))
 		if i != j {
-			L.Push(sep)
+			buf.WriteString(string(sep))
 		}
 	}
-	L.Push(LString(LVAsString(stringConcat(L, L.GetTop()-retbottom, L.reg.Top()-1))))
+	L.Push(LString(buf.String()))
 	return 1
 }
 
